@@ -25,6 +25,8 @@ SEMANTIC = (
     'ensures not satisfied',
     'loop invariant',
     'might not',
+    'post-condition',
+    'pre-condition',
 )
 
 
